@@ -34,6 +34,7 @@ import (
 	"fmt"
 	"io"
 	"net"
+	nettextproto "net/textproto"
 	"runtime/trace"
 	"time"
 
@@ -159,6 +160,27 @@ func (c *C) wrapClientErr(err error, serverName string) error {
 			"remote_server": serverName,
 		})
 	}
+}
+
+// cmdFailed is called with the error of a command of the mail transaction
+// (MAIL, RCPT, DATA, the message itself).
+//
+// A reply of the server leaves the connection in a known state. Anything else
+// (time-out, EOF, malformed or oversized reply) does not: the reply we gave up
+// waiting for may still arrive and would be taken for the reply to the next
+// command, so that every later result is reported for the wrong command or
+// recipient. The connection is closed right away in this case, later calls
+// fail with a network error and Close does not wait for a QUIT reply.
+func (c *C) cmdFailed(err error) error {
+	var (
+		netErr   net.Error
+		protoErr nettextproto.ProtocolError
+	)
+	if errors.Is(err, io.EOF) || errors.Is(err, io.ErrUnexpectedEOF) || errors.Is(err, smtp.ErrTooLongLine) ||
+		errors.As(err, &netErr) || errors.As(err, &protoErr) {
+		c.cl.Close()
+	}
+	return c.wrapClientErr(err, c.serverName)
 }
 
 // Connect actually estabilishes the network connection with the remote host,
@@ -345,7 +367,7 @@ func (c *C) Mail(ctx context.Context, from string, opts smtp.MailOptions) error 
 	}
 
 	if err := c.cl.Mail(from, &outOpts); err != nil {
-		return c.wrapClientErr(err, c.serverName)
+		return c.cmdFailed(err)
 	}
 
 	return nil
@@ -401,7 +423,7 @@ func (c *C) Rcpt(ctx context.Context, to string, opts smtp.RcptOptions) error {
 	}
 
 	if err := c.cl.Rcpt(to, outOpts); err != nil {
-		return c.wrapClientErr(err, c.serverName)
+		return c.cmdFailed(err)
 	}
 
 	c.rcpts = append(c.rcpts, originalTo)
@@ -486,7 +508,7 @@ func (c *C) Data(ctx context.Context, hdr textproto.Header, body io.Reader) erro
 
 	wc, err := c.cl.Data()
 	if err != nil {
-		return c.wrapClientErr(err, c.serverName)
+		return c.cmdFailed(err)
 	}
 
 	if err := textproto.WriteHeader(wc, hdr); err != nil {
@@ -500,7 +522,7 @@ func (c *C) Data(ctx context.Context, hdr textproto.Header, body io.Reader) erro
 	}
 
 	if err := wc.Close(); err != nil {
-		return c.wrapClientErr(err, c.serverName)
+		return c.cmdFailed(err)
 	}
 
 	return nil
@@ -511,7 +533,7 @@ func (c *C) LMTPData(ctx context.Context, hdr textproto.Header, body io.Reader, 
 
 	wc, err := c.cl.LMTPData(statusCb)
 	if err != nil {
-		return c.wrapClientErr(err, c.serverName)
+		return c.cmdFailed(err)
 	}
 
 	if err := textproto.WriteHeader(wc, hdr); err != nil {
@@ -525,7 +547,7 @@ func (c *C) LMTPData(ctx context.Context, hdr textproto.Header, body io.Reader, 
 	}
 
 	if err := wc.Close(); err != nil {
-		return c.wrapClientErr(err, c.serverName)
+		return c.cmdFailed(err)
 	}
 
 	return nil
